@@ -5,10 +5,10 @@ from harness.props.c09 import WHERE
 
 ID = "C03"
 THEOREM_FILE = "Properties/C03.v"
-COQ_PROP_OK = "(fun c => C03_ok (snd c) && C09_complete_ok (snd c) && C02_ok (s_complete (fst c)) (snd c))"
-RULE = ("seeded whole-system runs in which exactly one user callback raises: setup, the k-th step (k<=4), the k-th training run, a pause hook or a resume hook during the n-th pause, of either thread; or the save condition / "
+COQ_PROP_OK = "(fun c => C03_ok (snd c) && C03_flagged (snd c) && C09_complete_ok (snd c) && C02_ok (s_complete (fst c)) (snd c))"
+RULE = ("seeded whole-system runs in which exactly one user callback raises (once, or from then on at every call): setup, the k-th step (k<=4), the k-th training run, a pause hook or a resume hook during the n-th pause, of either thread; or the save condition / "
         "a state save raises in the control loop; combined with random command histories (incl. failures while a pause is being negotiated or while paused) and schedules. Checked per run: launch() comes back (no deadlock, "
-        "no virtual-time budget overrun), returns normally for background failures and re-raises control failures after joining, teardown exactly once, at most one control tick begins after the exception flag was set. "
+        "no virtual-time budget overrun), returns normally for background failures and re-raises control failures after joining, teardown exactly once, a thread whose callback raised sets its exception flag before it ends, at most one control tick begins after the exception flag was set. "
         "Non-trivial = the failure happened while the resume event was cleared (pause in flight or paused); distinct = canonical JSON.")
 TRUSTED = B.TRUSTED_SYS
 ASSUMPTIONS = B.ASSUMPTIONS_SYS
@@ -25,6 +25,8 @@ def gen_one(rng, seed):
     r = rng.random()
     if r < 0.8:
         sp["faults"] = [{"where": rng.choice(WHERE[:10]), "k": rng.randint(1, 4)}]
+        if rng.random() < 0.5:
+            sp["faults"][0]["persist"] = True     # the component stays broken: every later call of that callback fails too
     elif r < 0.9:
         sp["faults"] = [{"where": "savecond", "k": rng.randint(1, 20)}]
     else:
